@@ -147,8 +147,15 @@ def _prepare(d, targets, exists):
     for i, t in enumerate(targets):
         make = exists == "all" or (exists == "first" and i == 0) or (exists == "last" and i == len(targets) - 1 and len(targets) > 1)
         if make:
-            with open(t, "wb") as f:
-                f.write(_S())
+            if _CUR.get("symlink"):
+                # the existing target is a symbolic link to a regular file elsewhere (it exists, and writing goes through it)
+                real = os.path.join(d, "linked_" + os.path.basename(t))
+                with open(real, "wb") as f:
+                    f.write(_S())
+                os.symlink(real, t)
+            else:
+                with open(t, "wb") as f:
+                    f.write(_S())
             pre.add(t)
     return pre
 
@@ -187,12 +194,16 @@ def run_writer(case):
     try:
         import contextlib
         with contextlib.redirect_stdout(io.StringIO()), contextlib.redirect_stderr(io.StringIO()):
+            pos = case.get("positional")   # confirm_overwrite is the third positional parameter of these writers
             if w == "tum":
-                file_interface.write_tum_trajectory_file(arg, _traj(True), confirm_overwrite=case["confirm"])
+                file_interface.write_tum_trajectory_file(arg, _traj(True), case["confirm"]) if pos else \
+                    file_interface.write_tum_trajectory_file(arg, _traj(True), confirm_overwrite=case["confirm"])
             elif w == "kitti":
-                file_interface.write_kitti_poses_file(arg, _traj(False), confirm_overwrite=case["confirm"])
+                file_interface.write_kitti_poses_file(arg, _traj(False), case["confirm"]) if pos else \
+                    file_interface.write_kitti_poses_file(arg, _traj(False), confirm_overwrite=case["confirm"])
             elif w in ("res", "res_nosuffix"):
-                file_interface.save_res_file(arg, _result(), confirm_overwrite=case["confirm"])
+                file_interface.save_res_file(arg, _result(), case["confirm"]) if pos else \
+                    file_interface.save_res_file(arg, _result(), confirm_overwrite=case["confirm"])
             elif w == "table":
                 import pandas as pd
                 pandas_bridge.save_df_as_table(pd.DataFrame({"a": [1.0, 2.0]}, index=["x", "y"]), arg, confirm_overwrite=case["confirm"])
@@ -380,6 +391,7 @@ def _same_stem_case(case, d, ind, P, P2, Q, T, nw):
 def sub_combo(case):
     case = dict(case)
     _CUR["content"] = b"" if case.get("content") == "empty" else SENTINEL
+    _CUR["symlink"] = case.get("content") == "symlink"
     if "writer" in case:
         return run_writer(case)
     case["site"] = tuple(case["site"])
@@ -411,8 +423,15 @@ def combos(tier):
                         continue
                     out.append({"site": list(site), "exists": exists, "confirm": confirm, "answer": ans})
     # existing targets that are empty files (touch, a crashed earlier run): the decisive combinations once more
-    out += [dict(c, content="empty") for c in out if c["exists"] in ("first", "all") and c["confirm"] and c["answer"] in ("n", "y", "")
+    base = list(out)
+    out += [dict(c, content="empty") for c in base if c["exists"] in ("first", "all") and c["confirm"] and c["answer"] in ("n", "y", "")
             and c.get("ptype", "str") == "str"]
+    # ... that are symbolic links to regular files; and the writers called with confirm_overwrite as a positional argument
+    out += [dict(c, content="symlink") for c in base if c["exists"] in ("first", "all") and c["confirm"] and c["answer"] in ("n", "y")
+            and c.get("ptype", "str") == "str" and (c.get("writer") in ("tum", "kitti", "res", "table") or ("site" in c and c["site"][1] in (
+                "save_results", "save_as_tum", "save_table", "generate")))]
+    out += [dict(c, positional=True) for c in base if c.get("writer") in ("tum", "kitti", "res") and c["exists"] in ("first", "none")
+            and c["answer"] in ("n", "y")]
     if tier == "quick":
         heavy = lambda c: ("site" in c and tuple(c["site"]) in PLOT_SITES) or c.get("writer", "").startswith("plot") or c.get("writer") == "serialize"
         light = [c for c in out if not heavy(c)]
